@@ -200,6 +200,30 @@ def check_cases(ctx, cases):
                     ctx.fail(case, "two objects built one after the other from the same (frozen) arguments differ", "same-args-not-equal:frozen")
                 elif not (of1 == o) or observe(of1) != before:
                     ctx.fail(case, "an object built from a frozen mapping differs from the one built from the equal plain dict", "frozen-arg-differs")
+        # a list where a tuple is expected (what a JSON/msgpack decoder hands over): either the
+        # constructor rejects it, or the object neither keeps nor exposes the caller's list
+        for fk, fv in kwargs.items():
+            if not isinstance(fv, tuple):
+                continue
+            for deep in (False, True):
+                lst = thaw(fv) if deep else list(fv)
+                if deep and lst == list(fv):
+                    continue
+                ctx.count("channel=list-for-tuple")
+                try:
+                    ol = objgen.build(name, dict(copy.deepcopy({k: v for k, v in kwargs.items() if k != fk}), **{fk: lst}))
+                except (ValueError, TypeError, KeyError, AttributeError):
+                    ctx.count("list-for-tuple:rejected")
+                    continue
+                ctx.count("list-for-tuple:accepted")
+                bl = observe(ol)
+                got = getattr(ol, fk, None)
+                if isinstance(got, list) or any(isinstance(x, list) for x in (got or ())):
+                    ctx.fail(dict(case, field=fk), f"{name}({fk}=<list>) is accepted and the object exposes a list as `{fk}`", "field-mutable:list:" + name + "." + fk)
+                for path, c in containers(lst):
+                    poke(c)
+                if observe(ol) != bl:
+                    ctx.fail(dict(case, field=fk), f"{name}({fk}=<list>) is accepted and mutating that list afterwards changes the object", "constructor-aliases-argument:" + name + "." + fk)
         fields = [f.name for f in attr.fields(type(o))]
         for f in fields:
             ctx.count("channel=setattr")
